@@ -281,19 +281,23 @@ Definition ex_tx : tx :=
          [mkOutput 1000 [x6a]] 0.
 Example C06_tx_ctx_ok_satisfiable : tx_ctx_ok ex_tx 1.
 Proof.
-  unfold tx_ctx_ok, wf_tx, ex_tx. cbn [tx_version tx_lock tx_ins tx_outs length].
-  repeat split; try (vm_compute; reflexivity); try (cbn; repeat constructor; vm_compute; reflexivity).
-  - repeat constructor; cbn; vm_compute; try reflexivity; auto.
-  - repeat constructor; cbn; vm_compute; reflexivity.
-  - cbn. apply le_n_S, le_n_S, le_n.
+  assert (Hin : forall txid vout unl sq sats scr, length txid = 32%nat -> (vout < two32)%N -> (sq < two32)%N ->
+            (sats < two64)%N -> (lenN unl < two64)%N -> (lenN scr < two64)%N ->
+            wf_input (mkInput txid vout unl sq sats (Some scr))).
+  { intros. unfold wf_input, wf_script. cbn [in_txid in_vout in_seq in_sats in_unlock in_script]. repeat split; assumption. }
+  split; [|split; [cbn; apply le_n|reflexivity]].
+  split; [reflexivity|]. split; [reflexivity|]. split; [|split; [|split; reflexivity]].
+  - constructor; [apply Hin; reflexivity|]. constructor; [apply Hin; reflexivity|constructor].
+  - constructor; [split; reflexivity|constructor].
 Qed.
 
 (** 3006020101020101 is strict DER with low S; the model accepts it under DERSIG | LOW_S *)
 Example C06_strict_der_example : strict_der_low_s [x30; x06; x02; x01; x01; x02; x01; x01].
 Proof.
-  exists [x01], [x01]. repeat split; try (vm_compute; reflexivity); try (cbn; auto).
-  - vm_compute. intros H; discriminate.
-  - vm_compute. intros H; discriminate.
+  exists [x01], [x01].
+  assert (Hi : der_integer [x01]) by (cbn; split; [reflexivity|exact I]).
+  split; [reflexivity|]. split; [exact Hi|]. split; [exact Hi|]. split; [cbn; repeat constructor|].
+  unfold low_s. intros H. vm_compute in H. discriminate.
 Qed.
 Example C06_der_example_model :
   check_sig_enc (flags_of false true true false false false) [x30; x06; x02; x01; x01; x02; x01; x01] = EncOk /\
@@ -302,14 +306,10 @@ Proof. vm_compute. split; reflexivity. Qed.
 
 (** a toy oracle: 2-of-3 with signatures for keys 1 and 3 matches, in the other order it does not *)
 Example C06_matching_example :
-  let ok (s k : nat) := s = k in
-  monotone_matching ok [1; 3]%nat [1; 2; 3]%nat /\ ~ monotone_matching ok [3; 1]%nat [1; 2; 3]%nat.
+  monotone_matching (fun s k : nat => Nat.eqb s k = true) [1; 3]%nat [1; 2; 3]%nat /\
+  ~ monotone_matching (fun s k : nat => Nat.eqb s k = true) [3; 1]%nat [1; 2; 3]%nat.
 Proof.
-  cbn. split.
+  split.
   - apply mm_take; [reflexivity|]. apply mm_skip. apply mm_take; [reflexivity|]. apply mm_done.
-  - intros H.
-    assert (H' : monotone_matching (fun s k => Nat.eqb s k = true) [3; 1]%nat [1; 2; 3]%nat).
-    { clear -H. revert H. generalize [3; 1]%nat, [1; 2; 3]%nat. intros ss ks H. induction H; constructor; auto.
-      apply PeanoNat.Nat.eqb_eq. assumption. }
-    apply (greedy_spec Nat.eqb [1; 2; 3]%nat [3; 1]%nat) in H'. discriminate.
+  - intros H. apply (greedy_spec Nat.eqb [1; 2; 3]%nat [3; 1]%nat) in H. discriminate.
 Qed.
